@@ -63,6 +63,9 @@ def configs_for(prop, tier):
                 out.append(cfg('%s_on_2portfolios_both_holding' % op, ports=2, held=H3, pending=[('p1', 'EQ:B')], op=op, weight=600, validate_every=6,
                                twins=['accepted'], bound='2 portfolios, both with holdings (p1: A, p2: B) and a pending order; one %s' % op))
     if prop == 'C15':
+        for op in ('subscribe_portfolio', 'withdraw_portfolio'):
+            out.append(cfg('%s_after_any_update' % op, ports=2, held=H4, pending=[], op=op, pre_update=True, weight=80, twins=['accepted', 'refused'],
+                           bound='2 portfolios (p1 holds A); first an update at an arbitrary (possibly earlier, possibly refused) instant, then one %s with symbolic amount' % op))
         out.append(cfg('update_bad_marks', held=H2, pending=[], op='update_bad', weight=400, twins=['refused'], validate_every=5,
                        bound='1 portfolio holding A and B; update with arbitrary-sign mid prices and an arbitrary (possibly earlier) instant'))
         if tier == 'thorough':
@@ -150,7 +153,7 @@ class BrokerStep(Harness):
                     cs += [L.gt(i['bid'][u][a], -10 ** 5), L.gt(i['ask'][u][a], -10 ** 5), L.lt(i['bid'][u][a], 10 ** 5), L.lt(i['ask'][u][a], 10 ** 5)]
                     continue
                 cs += [L.gt(i['bid'][u][a], 0), L.gt(i['ask'][u][a], 0), L.ne(i['bid'][u][a], i['ask'][u][a]), L.lt(i['bid'][u][a], 10 ** 5), L.lt(i['ask'][u][a], 10 ** 5)]
-        if c['op'] not in ('update_bad', 'pf_subscribe', 'pf_withdraw', 'pf_transact', 'pf_mark'):
+        if c['op'] not in ('update_bad', 'pf_subscribe', 'pf_withdraw', 'pf_transact', 'pf_mark') and not c.get('pre_update'):
             cs.append(L.tle(i['t0'], i['t1']))
         cs.append(L.tle(i['t1'], i['t2']))
         return cs
@@ -217,9 +220,20 @@ class BrokerStep(Harness):
             o = Order(t0, a, i['pq'][k], order_id='o%d' % k)
             pending.append((p, o))
             br.submit_order(p, o)
-        before = snapshot(br, self.pids)
-        res = dict(before=before, pending=pending, nbuilder=nbuilder, fills=fills, dh_calls=dh_calls, op=c['op'], raised=None, ret=None, extra={})
         rnd['u'] = 1
+        pre_refused = None
+        if c.get('pre_update'):
+            # an earlier request of the history: a clock update at an arbitrary instant (it may be refused; either way it happened)
+            try:
+                br.update(t1)
+                pre_refused = False
+            except ValueError as e:
+                if not _from_repo(e):
+                    raise
+                pre_refused = True
+        before = snapshot(br, self.pids)
+        res = dict(before=before, pending=pending, nbuilder=nbuilder, fills=fills, dh_calls=dh_calls, op=c['op'], raised=None, ret=None, extra={},
+                   pre_refused=pre_refused)
         op = c['op']
         amt = i['amt']
         try:
@@ -559,6 +573,10 @@ class BrokerStep(Harness):
         amt = i['amt']
         avail = b['master'] if sign > 0 else b['ports'][p]['cash']
         invalid = L.Or(L.lt(amt, 0), L.gt(amt, avail))
+        if self.cfg.get('pre_update'):
+            # the broker stamps the transfer with its own clock (the instant of the last update request, t1); the portfolio
+            # refuses a timestamp earlier than its clock (t0, or t1 if that update filled something)
+            invalid = L.Or(invalid, L.tlt(i['t1'], i['t0']))
         if o['raised'] is not None:
             return self._refusal(L, o, b, a, tag, invalid, ValueError, obl)
         obl.append(('C15:%s:invalid_request_accepted' % tag, invalid))
